@@ -41,6 +41,8 @@ ENGINES = [
      "kind_free_text": "one driver goroutine holding several connections (rqlite db.DB write connection + CheckpointManager, reader connections holding read marks) to one real WAL-mode SQLite database; a seeded schedule decides which connection acts next (writer transaction, reader start/stop, snapshot attempt, disk fault on a WAL copy); SQLite itself is the reference for applying WALs"},
     {"name": "E2 crashsim (snapshot store)", "path": "sim/crash, sim/snapsim", "serves_properties": ["C07", "C08", "C09"],
      "kind_free_text": "the real snapshot.Store / upgraders / plan executor driven sequentially by a stand-in for store.Store over a real SQLite history; a crash is a directory image taken inside the verifhook handler at the k-th hook occurrence (every occurrence enumerated, plus a second crash during each recovery run, plus derived torn states), restored at the same path and re-opened; restore-and-dump oracle and abstract catalog model"},
+    {"name": "E3 schedsim", "path": "sim/sched", "serves_properties": ["C11", "C24", "C31", "C34", "C36"],
+     "kind_free_text": "seeded cooperative scheduler inside a testing/synctest bubble: harness tasks and adopted rqlite goroutines park at yield points (harness calls, verifhook.Yield in queue/throttler/snapshot store), one parked task or a clock quantum is chosen per step by the run's PRNG; mutexes held across blocking points are modelled"},
 ]
 
 NOT_APPLICABLE = {
